@@ -76,6 +76,11 @@ CLAIMS = {
             "Decides the mechanism that makes the helpers atomic: mutate a deep copy of the value just read, submit and return exactly "
             "it, retry only on a plain version conflict after re-reading, test the expected phase before anything else, never report an "
             "error after a successful write. Serializability as a whole follows with C01's version token and is argued, not mechanised.", "§3 C04"),
+    "C05": ("path-cut / typestate checks on the wake-up pipeline + routing-table extraction (necessary structure only)",
+            "Liveness is NOT decided. Decides the structure every wake-up depends on: watches before controllers, a watch for every added "
+            "input, no event class silently skipped, the single dedup map parked only when empty and never used after hand-off, every "
+            "dependent triggered, a capacity-1 non-blocking reconcile signal raised from every source, destroy-ready filter bookkeeping, the "
+            "queue routing table and the start-up listing of primaries.", "§3 C05"),
     "C07": ("path-cut (must-precede) analysis on go/ssa control-flow graphs",
             "Decides, for every path of every generic controller's reconcile code, the write-order clauses of the property "
             "(finalizer before output, destroy only when ready/empty, finalizer released only after destroy/handler success) "
